@@ -642,7 +642,8 @@ pub fn run<P: Property>(opts: &RunOpts) -> i32 {
         "generator_layer": {
             "built": crate::gen::GEN_ACCEPT.load(std::sync::atomic::Ordering::Relaxed),
             "refused": crate::gen::GEN_REJECT.load(std::sync::atomic::Ordering::Relaxed),
-            "note": "draws of the board/scene builders that produced a model geometry vs. draws they refused (trace not simple, out of the exact oracle's domain); refused draws are redrawn by proptest and are not cases"
+            "generic_position": crate::gen::GEN_JITTERED.load(std::sync::atomic::Ordering::Relaxed),
+            "note": "draws of the board/scene builders that produced a model geometry vs. draws they refused (trace not simple, out of the exact oracle's domain); refused draws are redrawn by proptest and are not cases; generic_position = built draws of the generic-position family (lattice refined 16-fold, every lattice point displaced by up to 1, 2 or 5 sub-units, the same point always to the same place: shared vertices stay shared, vertex-on-edge and collinear coincidences become near misses with generic slopes)"
         },
         "aborted_shards": aborted,
         "exhaustive": false,
@@ -670,7 +671,8 @@ pub fn run<P: Property>(opts: &RunOpts) -> i32 {
         "wall_s": wall,
         "violations": violations.len(),
     });
-    let edir = root.join("evidence");
+    // VERIF_EVIDENCE_DIR: only set by `./check` when it is pointed at another copy of the repository (VERIF_REPO)
+    let edir = std::env::var("VERIF_EVIDENCE_DIR").map(std::path::PathBuf::from).unwrap_or_else(|_| root.join("evidence"));
     let _ = std::fs::create_dir_all(&edir);
     let epath = edir.join(format!("{}.json", P::ID));
     if let Err(e) = std::fs::write(&epath, serde_json::to_string_pretty(&ev).unwrap()) {
